@@ -45,6 +45,13 @@ func scanCode(dst sql.Scanner, src []byte, get func() geom.Geometry, want string
 	return 'o'
 }
 
+// bn2geom builds a small unrelated geometry whose Value() is requested while another Value() result is alive.
+func bn2geom(r *lib.Rng) geom.Geometry {
+	var st lib.GenStats
+	cfg := lib.StructCfg{MaxDepth: 2, MaxKids: 3, MaxVerts: 4}
+	return cfg.Gen(r, &st).Build()
+}
+
 func main() {
 	a := lib.ParseArgs()
 	w, done := a.Output()
@@ -52,6 +59,7 @@ func main() {
 	root := lib.NewRng(a.Seed)
 	var st lib.GenStats
 	classes := map[string]int{}
+	var prevVal, prevWKB []byte
 	for i := 0; i < a.N; i++ {
 		r := root.Fork()
 		cfg := lib.StructCfg{MaxDepth: 4, NonFinZM: true, MaxKids: 4, MaxVerts: 5}
@@ -66,6 +74,15 @@ func main() {
 		case 9:
 			cfg.SmallInts = true
 			class = "smallint"
+		case 6:
+			if i%40 != 6 {
+				break
+			}
+			// wide: many members per Multi*/collection node (33..70), shallow nesting
+			cfg.MaxKids = 33 + r.Intn(38)
+			cfg.MaxDepth = 2
+			cfg.MaxVerts = 3
+			class = "wide"
 		}
 		classes[class]++
 		n := cfg.Gen(r, &st)
@@ -96,9 +113,18 @@ func main() {
 			app = "eq"
 		}
 		val := "ne"
-		if string(valueBytes(g)) == string(wkb) {
+		v1 := valueBytes(g)
+		if string(v1) == string(wkb) {
 			val = "eq"
 		}
+		// Value() results must stay intact while other Value() calls are made (database/sql keeps
+		// all arguments of one statement alive): a second geometry's Value must not clobber the first
+		v2 := valueBytes(bn2geom(r))
+		_ = v2
+		if string(v1) != string(wkb) || (prevVal != nil && string(prevVal) != string(prevWKB)) {
+			val = "ne"
+		}
+		prevVal, prevWKB = v1, wkb
 		valid := 0
 		if g.Validate() == nil {
 			valid = 1
